@@ -292,7 +292,7 @@ def _compute_slice_cases(cs):
         want_cols = [c for n in names for c in range(slc[n].start, slc[n].stop)]
         idx = list(got[0])
         last = idx[-1] if idx else None
-        if isinstance(last, slice):
+        if isinstance(last, slice) and all(x is None or isinstance(x, int) for x in (last.start, last.stop, last.step)):
             last = list(range(6))[last]
         ok = len(idx) == len(key) and list(idx[:-1]) == list(key[:-1]) and isinstance(last, list) and last == want_cols \
             and list(got[1].keys()) == names and all(got[1][n] == dict(dims)[n] for n in names)
